@@ -28,7 +28,9 @@ RULE = (
     "every cut; the acceptor's three timeouts are all different (acse/dimse/network e.g. 1/2/4..6 or 3/1.5/5) and the gaps are drawn relative to "
     "them (just below / just above the ACSE and DIMSE timeouts, between the ACSE and the network timeout, just below the network timeout), every "
     "PDU as a whole faster than the network timeout and the A-ASSOCIATE-RQ faster than the ARTIM (= ACSE) timeout; the real acceptor must receive "
-    "exactly the PDUs sent, answer every request and end released. "
+    "exactly the PDUs sent, answer every request and end released. A third sub-check ('delays_req') mirrors it: a pynetdicom requestor "
+    "(associate, C-ECHO, release) against a raw acceptor whose three answers arrive in segments with gaps below the network timeout (any gap "
+    "when it is None) that may exceed the connection timeout; associate, echo and release must all succeed. "
     "Non-trivial = a cut strictly inside a 6-byte header, an EOF strictly inside a PDU, two PDUs (or the tail of one and the head of the next) in one "
     "chunk, or (E4) >=2 segments with a non-zero gap; distinct = (pdus, cuts, eof, role, transport)."
 )
@@ -353,6 +355,61 @@ def check_delays(ctx, case):
 
 
 CHECKS["delays"] = check_delays
+
+
+def check_delays_req(ctx, case):
+    """The mirror image of 'delays': a pynetdicom REQUESTOR (associate, C-ECHO, release) talks to a raw acceptor that sends its three
+    answers (A-ASSOCIATE-AC, C-ECHO response, A-RELEASE-RP) cut into generated segments with generated virtual gaps. Every gap is shorter
+    than the network timeout - any gap when the network timeout is None (the library's 'no limit') - and every answer arrives well within
+    the ACSE / DIMSE timeout (10 s), but gaps may be longer than the connection timeout, which only governs the TCP connect.
+    Oracle: associate() succeeds, the C-ECHO returns Success, release() ends released."""
+    from engines import lifecycle as L
+    from engines import scenario as SC
+
+    network, conn = case["network"], case["conn"]
+    to = {"acse": 10, "dimse": 10, "network": network, "connection": conn}
+    answers = [R.ref_encode(SC.RAW_AC), L._echo_rsp(1, 1), R.ref_encode(R.ReleaseRP())]
+    script, took, all_gaps = [], [], []
+    for i, p in enumerate(answers):
+        script.append(["recv_pdu", 30])
+        cuts = sorted(set(c for c in case["cuts"][i] if 0 < c < len(p)))
+        gaps = (list(case["gaps"][i]) + [0.0] * len(cuts))[: len(cuts)]
+        prev = 0
+        for j, c in enumerate(cuts + [len(p)]):
+            script.append(["send", p[prev:c]])
+            prev = c
+            if c != len(p):
+                script.append(["sleep", gaps[j]])
+        took.append(sum(gaps))
+        all_gaps += [g for g in gaps if g > 0]
+    script += [["recv_until_close", 5], ["close"]]
+    if max(took, default=0) + 0.75 > (network if network is not None else 9.0):
+        raise HarnessError("generator produced an answer slower than the network/ACSE timeout")
+    sc = {"timeouts": to, "max_steps": 80000, "quantum": 0.25, "acceptor": {"kind": "raw", "script": script},
+          "requestors": [{"kind": "pynetdicom", "script": [["associate"], ["echo"], ["release"]]}],
+          "schedule": {"policy": case["policy"], "seed": case["seed"], "preemptions": [], "nudges": []}}
+    out = SC.run(sc)
+    for p_ in out["raw"]:
+        if p_.error:
+            raise HarnessError(f"raw peer failed: {p_.error}")
+    classes = ["delays-requestor", f"network-timeout={network}", f"connection-timeout={conn}", out["how"]]
+    if any(g > conn for g in all_gaps):
+        classes.append("gap-above-connection-timeout")
+    ctx.note(case, nontrivial=bool(all_gaps), classes=classes)
+    if out["how"] == "budget":
+        ctx.inconclusive += 1
+        return
+    died = [t for t in out["report"]["threads"] if t["exc"] and not t["name"].startswith("raw-")]
+    if died:
+        ctx.fail("thread-exception", f"{died[0]['kind']}:{died[0]['exc'][2]}", f"{died[0]['name']} died: {died[0]['exc'][:2]}")
+        return
+    steps = [(k, v) for _t, k, v in out["requestors"][0]["steps"]]
+    want = [("associate", True), ("echo", 0), ("release", True)]
+    if steps != want:
+        ctx.fail("requestor-conversation", f"network={'none' if network is None else 'set'}", f"requestor steps {steps}, expected {want}; answers sent in segments at cuts {case['cuts']} with gaps {case['gaps']} s (timeouts {to}); outcome {out['requestors'][0].get('outcome')}")
+
+
+CHECKS["delays_req"] = check_delays_req
 _run_sync = run
 
 
@@ -388,3 +445,23 @@ def run(ctx):
                 "policy": draw(st.sampled_from(["fifo", "random"])), "seed": draw(st.integers(0, 9999))}
 
     ctx.hyp("delays", case(), 400 if ctx.quick else 1200)
+
+    @st.composite
+    def case_req(draw):
+        network = draw(st.sampled_from([None, None, 4, 6]))
+        conn = draw(st.sampled_from([0.5, 1, 2]))
+        limit = (network if network is not None else 9.0) - 0.75
+        cuts, gaps = [], []
+        for _ in range(3):
+            cs = draw(st.lists(st.one_of(st.integers(1, 7), st.integers(1, 200)), max_size=2))
+            gs, left = [], limit
+            for _c in cs:
+                g = draw(st.sampled_from([0.0, conn * 0.5, conn + 0.3, conn + 1.2, 2.5]))
+                g = min(g, max(left - 0.01, 0.0))
+                gs.append(round(g, 2))
+                left -= g
+            cuts.append(cs)
+            gaps.append(gs)
+        return {"network": network, "conn": conn, "cuts": cuts, "gaps": gaps, "policy": draw(st.sampled_from(["fifo", "random"])), "seed": draw(st.integers(0, 9999))}
+
+    ctx.hyp("delays_req", case_req(), 120 if ctx.quick else 600)
